@@ -80,6 +80,79 @@ def _run(hist_name, progs, clients=1, names=None):
     return w
 
 
+_AIO = None
+
+
+def _act_in_orders_cls():
+    """a strategy that places its follow-up orders from process_orders (not from process_market_book)"""
+    global _AIO
+    if _AIO is None:
+        Scripted, _ = simx.classes()
+
+        class ActInOrders(Scripted):
+            late_script = None  # {tick: [actions]} executed in process_orders of that update
+            _tick_now = -1
+
+            def process_market_book(self, market, market_book):
+                self._tick_now = self.counts[market.market_id]
+                self._done_late = False
+                return super().process_market_book(market, market_book)
+
+            def process_orders(self, market, orders):
+                super().process_orders(market, orders)
+                acts = (self.late_script or {}).get(self._tick_now)
+                if acts and not self._done_late:
+                    self._done_late = True
+                    for a in acts:
+                        self.do(a, market, 0, self._tick_now)
+
+        _AIO = ActInOrders
+    return _AIO
+
+
+def _orders_callback_one(args):
+    """metamorphic: a strategy whose first order completes at once and which places again from process_orders a few
+    updates later gets the same ledger alone and next to a strategy holding a resting order (either order)"""
+    hist_name, late_tick, b_name = args
+    cls = _act_in_orders_cls()
+    out = []
+    counts = {"clause:C13.a": 0, "orders_callback_pairs": 0, "orders_callback_followups": 0}
+    case = dict(orders_callback=[hist_name, late_tick, b_name])
+
+    def run(with_b, order):
+        ticks = [[200, L.EVENTS[e]] for e in HISTORIES[hist_name]]
+        spec = simx.MarketSpec(book0=L.BOOK0)
+        kw = dict(max_order_exposure=None, max_selection_exposure=None, max_live_trade_count=3)
+        a = dict(script={(0, 0): [L.P("XB")]}, name="A", kw=dict(kw), cls=cls)
+        b = dict(script={(0, 0): [L.P(b_name)]}, name="B", kw=dict(kw))
+        strategies = [a] + ([b] if with_b else [])
+        if order == "BA":
+            strategies.reverse()
+
+        def setup(w):
+            for st in w.strategies:
+                if st.name == "A":
+                    st.late_script = {late_tick: [L.P("PBn")]}
+
+        L._install_created_tracking()
+        w = simx.SimWorld([(spec, ticks)], strategies, flumine_setup=setup).run()
+        sa = [s for s in w.strategies if s.name == "A"][0]
+        return w, ledger(sa, w)
+
+    w0, base = run(False, "AB")
+    if len(base) > 1:
+        counts["orders_callback_followups"] += 1
+    for order in ("AB", "BA"):
+        w, got = run(True, order)
+        counts["clause:C13.a"] += 1
+        counts["orders_callback_pairs"] += 1
+        if w.run_exception is not None or w0.run_exception is not None:
+            out.append(core.v("C13.a", ("process_orders", "none", "exception"), "run raised %r / %r" % (w0.run_exception, w.run_exception), case))
+        elif got != base:
+            out.append(core.v("C13.a", ("process_orders", "none", "ledger"), "history %s: a strategy acting in process_orders at update %d has %d order(s) alone and %d next to a strategy with a resting %s (registration %s)" % (hist_name, late_tick, len(base), len(got), b_name, order), case))
+    return dict(violations=_dedup(out), counts=counts, outcome=str((hist_name, late_tick, b_name, len(base))))
+
+
 def _meta_chunk(args):
     hist_name, ai, bis, rich, clients = args
     progs = programs(rich)
@@ -450,6 +523,13 @@ def run(tier):
         rep.merge_counts(r["counts"])
         rep.outcomes.update(r["outcomes"])
         runs += 1 + 2 * len(j[2])
+    oj = [(hn, lt, bn) for hn in HISTORIES for lt in (1, 2, 3, 4) for bn in ("PB", "PL", "P2")]
+    for r in core.pmap(_orders_callback_one, oj):
+        rep.add_violations(r["violations"])
+        rep.merge_counts(r["counts"])
+        rep.outcomes.add(r["outcome"])
+    runs += 3 * len(oj)
+    rep.need("orders_callback_followups")
     rep.sample({"history": "H1", "A": progs[1], "B": progs[7]})
     # fault injection: every callback kind x invocation index x exception kind x target
     fj = []
@@ -501,6 +581,11 @@ def run(tier):
 
 def replay(rep):
     c = rep["case"]
+    if "orders_callback" in c:
+        r = _orders_callback_one(tuple(c["orders_callback"]))
+        for d in r["violations"]:
+            print(d["key"], d["detail"])
+        return 1 if r["violations"] else 0
     if "live_fault" in c:
         a = c["live_fault"]
         r = _live_fault_one((a[0], a[1], a[2], a[3]))
